@@ -1,6 +1,7 @@
 #include "address_impl.h"
 #include "error_code.h" // for AddressError
 
+#include <cctype> // for std::isspace
 #include <cstring> // for std::memcmp
 #include <limits> // for std::numeric_limits
 #include <string_view> // for std::string_view
@@ -43,10 +44,15 @@ bool HasLineBreak(std::string_view str)
   return (str.find_first_of("\n\r") != std::string_view::npos);
 }
 
-// numeric service of type [-]digits
+// numeric service as getaddrinfo would read it (like strtoul):
+// [blanks][+-]digits up to the end of the C string
 bool IsServiceNumeric(std::string_view serv)
 {
-  if(!serv.empty() && (serv.front() == '-')) {
+  serv = serv.substr(0, serv.find('\0'));
+  while(!serv.empty() && std::isspace(static_cast<unsigned char>(serv.front()))) {
+    serv.remove_prefix(1);
+  }
+  if(!serv.empty() && ((serv.front() == '-') || (serv.front() == '+'))) {
     serv.remove_prefix(1);
   }
   return IsDigits(serv);
@@ -142,6 +148,10 @@ struct UriDissect
         hints.ai_flags |= AI_NUMERICSERV;
       } else {
         host = uri;
+        if(IsServiceNumeric(serv)) {
+          // URI of type port://host
+          CheckServiceNumericOutOfRange(serv);
+        }
       }
     } else {
       throw std::logic_error("unexpected uri format");
